@@ -159,7 +159,9 @@ def run(tier, seed, t0):
                 rep.obligations += 1
                 rep.discharged += 1
             elif getattr(it, "c20_ok", None) is False:
-                if s11:
+                if (getattr(it, "detail", None) or {}).get("kind", "").startswith("the certificate's evaluation did not finish"):
+                    pass  # already reported: no verdict for this blueprint
+                elif s11:
                     rep.known.append("S11")
                 else:
                     rep.obligations += 1
